@@ -238,6 +238,69 @@ T("C01", "twin-candidate-helper-method", B, _FF_LOOP, "", edits=[
 M("C01", "not-found-returns-none", B, "        raise ValueError(\"No valid Beacon configuration found\")\n", "        return None\n", "C01.R7")
 M("C01", "not-found-conditional-raise", B, "        raise ValueError(\"No valid Beacon configuration found\")\n",
   "        if not all_xor_keys:\n            raise ValueError(\"No valid Beacon configuration found\")\n", "C01.R7")
+# search strategies split into (new) private classmethods that return the config or None; the trailing raise becomes a
+# None test in from_file (early returns / nested tests / one shared return statement for both strategies)
+_GR_MARK = "        # Try finding Beacon config protected with Guardrails\n"
+_GR_TAIL = "            return bconfig\n\n        raise ValueError(\"No valid Beacon configuration found\")\n"
+_NOT_FOUND = "        raise ValueError(\"No valid Beacon configuration found\")\n"
+_GR_HELPER_DEF = "\n    @classmethod\n    def _guardrails_config(cls, fobj: BinaryIO) -> Optional[\"BeaconConfig\"]:\n"
+_SCAN_HELPER_DEF = (
+    "\n    @classmethod\n"
+    "    def _scanned_config(cls, fobj: BinaryIO, xor_keys: List[bytes] = None, all_xor_keys: bool = False) -> Optional[\"BeaconConfig\"]:\n"
+)
+_GR_TAIL_NONE = "            return bconfig\n        return None\n"
+
+
+def _gr_split(dispatch):
+    """guardrails fallback in a helper; `dispatch` is what from_file does after the regular search loop"""
+    return [(B, _GR_MARK, dispatch + _GR_HELPER_DEF), (B, _GR_TAIL, _GR_TAIL_NONE)]
+
+
+def _both_split(dispatch, loop=_FF_LOOP):
+    """both strategies in helpers; `dispatch` is the whole body of from_file"""
+    return [(B, _FF_LOOP + "\n" + _GR_MARK, dispatch + _SCAN_HELPER_DEF + loop + "        return None\n" + _GR_HELPER_DEF), (B, _GR_TAIL, _GR_TAIL_NONE)]
+
+
+T("C01", "twin-guardrails-helper-early-return", B, "", "", edits=_gr_split(
+    "        config = cls._guardrails_config(fobj)\n        if config is not None:\n            return config\n" + _NOT_FOUND))
+T("C01", "twin-guardrails-helper-mirrored-test", B, "", "", edits=_gr_split(
+    "        config = cls._guardrails_config(fobj)\n        if None is config:\n" + "    " + _NOT_FOUND + "        return config\n"))
+M("C01", "guardrails-helper-result-unchecked", B, "", "", "C01.R7", edits=_gr_split("        return cls._guardrails_config(fobj)\n"))
+M("C01", "guardrails-helper-test-inverted", B, "", "", "C01.R7", edits=_gr_split(
+    "        config = cls._guardrails_config(fobj)\n        if config is None:\n            return config\n" + _NOT_FOUND))
+_SEQ = (
+    "        config = cls._scanned_config(fobj, xor_keys, all_xor_keys=all_xor_keys)\n"
+    "        if config is not None:\n"
+    "            return config\n"
+    "        config = cls._guardrails_config(fobj)\n"
+    "        if config != None:\n"
+    "            return config\n"
+    + _NOT_FOUND
+)
+_NESTED = (
+    "        config = cls._scanned_config(fobj, all_xor_keys=all_xor_keys, xor_keys=xor_keys)\n"
+    "        if config is None:\n"
+    "            config = cls._guardrails_config(fobj)\n"
+    "{inner}"
+    "        return config\n"
+)
+_INNER = "            if config is None:\n        " + _NOT_FOUND
+T("C01", "twin-strategies-split-early-returns", B, "", "", edits=_both_split(_SEQ))
+T("C01", "twin-strategies-split-nested-tests", B, "", "", edits=_both_split(_NESTED.format(inner=_INNER)))
+M("C01", "strategies-split-fallback-unchecked", B, "", "", "C01.R7", edits=_both_split(_NESTED.format(inner="")))
+# the None test sits before the fallback assignment: it guards the first strategy's result only
+M("C01", "strategies-split-test-before-fallback", B, "", "", "C01.R7", edits=_both_split(
+    "        config = cls._scanned_config(fobj, xor_keys, all_xor_keys)\n"
+    "        if config is not None:\n"
+    "            return config\n"
+    "        if config is None and not all_xor_keys:\n    " + _NOT_FOUND +
+    "        config = cls._guardrails_config(fobj)\n"
+    "        return config\n"))
+M("C01", "strategies-split-shared-return-metadata-dropped", B, "", "", "C01.R6",
+  edits=_both_split(_NESTED.format(inner=_INNER), loop=_FF_LOOP.replace("            bconfig.xorencoded = extra_info[\"xorencoded\"]\n", "")))
+M("C01", "strategies-split-shared-return-second-candidate", B, "", "", "C01.R6",
+  edits=_both_split(_NESTED.format(inner=_INNER), loop=_FF_LOOP.replace(
+      "            return bconfig\n", "            if bconfig.xorencoded:\n                continue\n            return bconfig\n")))
 
 # ================================================================================================ R7: entry points
 _FP_POS = (
